@@ -456,6 +456,7 @@ Section CpSim.
       forall i p, nth_error params i = Some p -> nth_error ps i = Some Unopt -> ~ In p X.
   Hypothesis Hselfp : forall fn, find_func P fname = Some fn -> f_params fn = params.
   Hypothesis Hclo : forall tr v h cx, w_clo w tr v = Some (h, cx) -> keep_of gs h = None.
+  Hypothesis HXnone : keep_of gs fname = None -> forall x, ~ In x X.
 
   (* what is asked of a statement *)
   Definition sites_ok (s : stmt) : Prop :=
@@ -484,4 +485,706 @@ Section CpSim.
         pose proof (const_of_lit _ _ Hc) as Hlit. apply const_of_classify in Hc. subst. apply eval_lit_env. exact Hlit.
     - apply IH; [|lia]. intros i a0 s0 Ha Hs. apply (Hm (S i) a0 s0); assumption.
   Qed.
+
+  Lemma map_eval_fk en en' ks args :
+    (forall i a, nth_error args i = Some a -> nth_error ks i = Some true -> eval w en' (cp_expr lr a) = eval w en a) ->
+    map (eval w en') (map (cp_expr lr) (filter_keep ks args)) = filter_keep ks (map (eval w en) args).
+  Proof.
+    revert args. induction ks as [|k ks IH]; intros [|a args] H; simpl; try reflexivity.
+    destruct k; simpl.
+    - f_equal; [apply (H 0%nat a); reflexivity|]. apply IH. intros i a0 Ha Hk. apply (H (S i) a0); assumption.
+    - apply IH. intros i a0 Ha Hk. apply (H (S i) a0); assumption.
+  Qed.
+
+  Lemma uses_self_in ps args i p x t :
+    nth_error ps i = Some p -> nth_error args i = Some (EVar x t) -> x <> p -> In x (uses_self ps args).
+  Proof.
+    revert args i. induction ps as [|p0 ps IH]; intros [|a args] [|i] Hp Ha Hne; simpl in *; try discriminate.
+    - inversion Hp; inversion Ha; subst. apply N.eqb_neq in Hne. rewrite Hne. left. reflexivity.
+    - apply in_or_app. right. eapply IH; eauto.
+  Qed.
+
+  Lemma self_args_ok en en' ps args :
+    rel en en' -> gget gs fname = Some (Some ps) -> length args = length params ->
+    (forall x, In x X -> ~ In x (uses_self params args)) ->
+    forall i a, nth_error args i = Some a -> nth_error (map is_unopt ps) i = Some true ->
+      eval w en' (cp_expr lr a) = eval w en a.
+  Proof.
+    intros R Hg Hl Hu i a Ha Hk. apply eval_cp; [exact R|].
+    destruct a as [z|z|s|x t]; simpl; try exact I. intro Hx.
+    assert (Hi : (i < length params)%nat). { rewrite <- Hl. apply nth_error_Some. rewrite Ha. discriminate. }
+    destruct (nth_error params i) as [p|] eqn:Hp; [|apply nth_error_None in Hp; lia].
+    destruct (N.eq_dec x p) as [->|Hne].
+    - rewrite nth_error_map in Hk. destruct (nth_error ps i) as [s|] eqn:Hs; [|discriminate]. simpl in Hk.
+      inversion Hk as [Hu']. destruct s; try discriminate. apply (Hself ps Hg i p Hp Hs). exact Hx.
+    - apply (Hu x Hx). eapply uses_self_in; eauto.
+  Qed.
+
+  Lemma loop_rrel (b b' : env -> trace -> res) (next next' : env -> env) n :
+    (forall en en' tr, rel en en' -> rrel (b en tr) (b' en' tr)) ->
+    (forall en en', rel en en' -> rel (next en) (next' en')) ->
+    forall en en' tr, rel en en' -> rrel (loop b next n en tr) (loop b' next' n en' tr).
+  Proof.
+    intros Hb Hn. induction n as [|n IH]; intros en en' tr R; simpl; [reflexivity|].
+    specialize (Hb en en' tr R).
+    destruct (b en tr) as [en1 tr1|v en1 tr1|o]; destruct (b' en' tr) as [en1' tr1'|v' en1' tr1'|o']; simpl in Hb; try contradiction.
+    - destruct Hb as [<- R1]. apply IH. apply Hn. exact R1.
+    - exact Hb.
+    - exact Hb.
+  Qed.
+
+  (* parts of a compound statement are ok *)
+  Lemma binders_l_in ss s x : In s ss -> In x (binders s) -> In x (binders_l ss).
+  Proof.
+    induction ss as [|s0 ss IH]; simpl; [tauto|]. intros [->|H] Hx; apply in_or_app; [left; exact Hx|right; apply IH; assumption].
+  Qed.
+  Lemma assigned_l_in ss s x : In s ss -> In x (assigned s) -> In x (assigned_l ss).
+  Proof.
+    induction ss as [|s0 ss IH]; simpl; [tauto|]. intros [->|H] Hx; apply in_or_app; [left; exact Hx|right; apply IH; assumption].
+  Qed.
+
+  Definition block_of (s : stmt) (ss : list stmt) : Prop :=
+    match s with
+    | SIf _ s1 s2 _ => ss = s1 \/ ss = s2
+    | SSIf _ _ b | SWhile _ b _ => ss = b
+    | _ => False
+    end.
+
+  Lemma sub_ok s ss s' : block_of s ss -> In s' ss -> stmt_ok s -> stmt_ok s'.
+  Proof.
+    intros Hb Hin [Hsi [Hnu [Hbi [Hcv Har]]]].
+    assert (Hflat : forall {A} (f : stmt -> list A) x, In x (f s') -> In x (flat_map f ss)).
+    { intros A f x Hx. apply in_flat_map. exists s'. split; assumption. }
+    repeat split.
+    - intros g args ps Hev Hg. apply (Hsi g args ps); [|exact Hg].
+      destruct s; simpl in Hb; try contradiction; simpl.
+      + destruct Hb as [->| ->]; apply in_or_app; [left|right]; apply Hflat; exact Hev.
+      + subst. apply Hflat; exact Hev.
+      + subst. apply Hflat; exact Hev.
+    - intros x Hx Hu. apply (Hnu x Hx).
+      destruct s; simpl in Hb; try contradiction; simpl.
+      + apply in_or_app. right. destruct Hb as [->| ->].
+        * apply in_or_app. left. apply Hflat; exact Hu.
+        * apply in_or_app. right. apply in_or_app. left. apply Hflat; exact Hu.
+      + subst. apply in_or_app. right. apply Hflat; exact Hu.
+      + subst. apply in_or_app. right. apply Hflat; exact Hu.
+    - intros x Hx. apply Hbi. apply in_app_or in Hx.
+      destruct s; simpl in Hb; try contradiction; simpl; fold binders_l; fold assigned_l.
+      + destruct Hx as [Hx|Hx]; apply in_or_app; [left|right].
+        * destruct Hb as [->| ->]; apply in_or_app; [left|right; apply in_or_app; left]; eapply binders_l_in; eauto.
+        * destruct Hb as [->| ->]; apply in_or_app; [left|right]; eapply assigned_l_in; eauto.
+      + subst. destruct Hx as [Hx|Hx]; apply in_or_app; [left; eapply binders_l_in|right; eapply assigned_l_in]; eauto.
+      + subst. destruct Hx as [Hx|Hx]; apply in_or_app; [left|right; eapply assigned_l_in; eauto].
+        apply in_or_app. right. apply in_or_app. left. eapply binders_l_in; eauto.
+    - intros x Hx. apply Hcv.
+      destruct s; simpl in Hb; try contradiction; simpl.
+      + destruct Hb as [->| ->]; apply in_or_app; [left|right]; apply Hflat; exact Hx.
+      + subst. apply Hflat; exact Hx.
+      + subst. apply Hflat; exact Hx.
+    - destruct s; simpl in Hb; try contradiction; simpl in Har.
+      + apply andb_true_iff in Har. destruct Har as [H1 H2].
+        destruct Hb as [->| ->]; [rewrite forallb_forall in H1; apply H1|rewrite forallb_forall in H2; apply H2]; exact Hin.
+      + subst. rewrite forallb_forall in Har. apply Har. exact Hin.
+      + subst. rewrite forallb_forall in Har. apply Har. exact Hin.
+  Qed.
+
+  Lemma keep_of_some g ks : keep_of gs g = Some ks -> exists ps, gget gs g = Some (Some ps) /\ ks = map is_unopt ps.
+  Proof.
+    unfold keep_of. destruct (gget gs g) as [[ps|]|]; try discriminate. intro H. inversion H. exists ps. split; reflexivity.
+  Qed.
+
+  Lemma bind_qs_cp (g : quad -> expr) (gc : quad -> expr) fas en1' :
+    (forall q, gc (cp_quad lr q) = cp_expr lr (g q)) ->
+    combine (map q_name (map (cp_quad lr) fas)) (map (fun q => eval w en1' (gc q)) (map (cp_quad lr) fas)) ++ en1' =
+    combine (map q_name fas) (map (fun q => eval w en1' (cp_expr lr (g q))) fas) ++ en1'.
+  Proof.
+    intro H. rewrite !map_map. f_equal. f_equal. apply map_ext. intro q. rewrite H. reflexivity.
+  Qed.
+
+  Lemma cp_sim_both :
+    (forall s en en' tr, rel en en' -> stmt_ok s ->
+        rrel (exec w c lf s en tr) (exec w c' lf (cp_stmt gs lr s) en' tr)) /\
+    (forall ss en en' tr, rel en en' -> (forall s, In s ss -> stmt_ok s) ->
+        rrel (exec_list (exec w c lf) ss en tr) (exec_list (exec w c' lf) (map (cp_stmt gs lr) ss) en' tr)).
+  Proof.
+    apply stmt_stmts_ind2.
+    - (* SBin *) intros x op e1 e2 en en' tr R [Hsi [Hnu [Hbi [Hcv Har]]]]. simpl.
+      rewrite (eval_cp en en' e1 R), (eval_cp en en' e2 R).
+      + destruct (rt_binop op (eval w en e1) (eval w en e2)); simpl; [|reflexivity].
+        split; [reflexivity|]. apply rel_bind; [exact R|]. apply Hbi. left. reflexivity.
+      + apply expr_ok_of. intros y Hy Hin. apply (Hnu y Hy). simpl. apply in_or_app. right. exact Hin.
+      + apply expr_ok_of. intros y Hy Hin. apply (Hnu y Hy). simpl. apply in_or_app. left. exact Hin.
+    - (* SNot *) intros x e en en' tr R [Hsi [Hnu [Hbi [Hcv Har]]]]. simpl.
+      rewrite (eval_cp en en' e R).
+      + split; [reflexivity|]. apply rel_bind; [exact R|]. apply Hbi. left. reflexivity.
+      + apply expr_ok_of. intros y Hy Hin. apply (Hnu y Hy). exact Hin.
+    - (* SPrim *) intros x p e en en' tr R [Hsi [Hnu [Hbi [Hcv Har]]]]. simpl.
+      rewrite (eval_cp en en' e R).
+      + split; [reflexivity|]. apply rel_bind; [exact R|]. apply Hbi. left. reflexivity.
+      + apply expr_ok_of. intros y Hy Hin. apply (Hnu y Hy). exact Hin.
+    - (* SCall *) intros cl args rty ret en en' tr R [Hsi [Hnu [Hbi [Hcv Har]]]].
+      assert (Hret : forall v tr1, rrel (RNext (bind_opt ret v en) tr1) (RNext (bind_opt ret v en') tr1)).
+      { intros v tr1. split; [reflexivity|]. apply rel_bind_opt; [exact R|]. intros x Hx. apply Hbi.
+        apply in_or_app. left. exact Hx. }
+      destruct cl as [g atys frty|x t].
+      + (* a named function *)
+        assert (Hvals : exists args', cp_stmt gs lr (SCall (CFn g atys frty) args rty ret) =
+                                      SCall (CFn g (match keep_of gs g with Some ks => filter_keep ks atys | None => atys end) frty) args' rty ret /\
+                                      map (eval w en') args' = fk g (map (eval w en) args) /\ args_ok g (map (eval w en) args)).
+        { simpl. unfold fk. destruct (keep_of gs g) as [ks|] eqn:Ek.
+          - destruct (keep_of_some _ _ Ek) as [ps [Hg ->]].
+            destruct (HG5 _ _ Hg) as [fn Hfn]. simpl in Har. rewrite Hfn in Har. apply Nat.eqb_eq in Har.
+            pose proof (HG1 _ _ _ Hfn Hg) as Hlen.
+            exists (map (cp_expr lr) (filter_keep (map is_unopt ps) args)). split; [reflexivity|]. split.
+            + apply map_eval_fk. intros i a Ha Hk. unfold nouse in Hnu. simpl in Hnu. destruct (N.eqb g fname) eqn:Eg.
+              * apply N.eqb_eq in Eg. subst g. eapply self_args_ok; eauto. rewrite Har, (Hselfp _ Hfn). reflexivity.
+              * apply eval_cp; [exact R|]. apply expr_ok_of. intros y Hy Hin. apply (Hnu y Hy).
+                apply in_flat_map. exists a. split; [eapply nth_error_In; eauto|exact Hin].
+            + intros ps' Hg'. rewrite Hg in Hg'. inversion Hg'; subst ps'. apply good_of_metv.
+              * apply (Hsi g args ps); [left; reflexivity|exact Hg].
+              * rewrite Hlen, Har. reflexivity.
+          - exists (map (cp_expr lr) args). split; [reflexivity|]. split.
+            + unfold nouse in Hnu. simpl in Hnu. destruct (N.eqb g fname) eqn:Eg.
+              * apply N.eqb_eq in Eg. subst g. pose proof (HXnone Ek) as HX0.
+                assert (Hall : forall l, map (eval w en') (map (cp_expr lr) l) = map (eval w en) l).
+                { induction l as [|a l IHl]; [reflexivity|]. simpl. f_equal; [|exact IHl].
+                  apply eval_cp; [exact R|]. destruct a; simpl; try exact I. apply HX0. }
+                apply Hall.
+              * apply map_eval_cp; assumption.
+            + intros ps Hg. unfold keep_of in Ek. rewrite Hg in Ek. discriminate. }
+        destruct Hvals as [args' [Hcp [Hv Hok]]]. rewrite Hcp. simpl. rewrite Hv, (HC g _ tr Hok).
+        destruct (c g (map (eval w en) args) tr) as [v tr1|o]; [apply Hret|reflexivity].
+      + (* a closure *)
+        simpl. unfold nouse in Hnu. simpl in Hnu.
+        assert (Hx : wrap32 (lookup x en) = wrap32 (lookup x en')).
+        { apply (proj1 (R x)).
+          - intro Hin. apply (Hnu x Hin). left. reflexivity.
+          - apply Hcv. left. reflexivity. }
+        rewrite <- Hx. rewrite (map_eval_cp en en' args R).
+        * destruct (w_clo w tr (wrap32 (lookup x en))) as [[h cx]|] eqn:Ew; [|reflexivity].
+          pose proof (Hclo _ _ _ _ Ew) as Hk.
+          assert (Hc0 : c' h (cx :: map (eval w en) args) tr = c h (cx :: map (eval w en) args) tr).
+          { pose proof (HC h (cx :: map (eval w en) args) tr) as H0. unfold fk in H0. rewrite Hk in H0. apply H0.
+            intros ps Hg. unfold keep_of in Hk. rewrite Hg in Hk. discriminate. }
+          rewrite Hc0. destruct (c h (cx :: map (eval w en) args) tr) as [v tr1|o]; [apply Hret|reflexivity].
+        * intros y Hy Hin. apply (Hnu y Hy). right. exact Hin.
+    - (* SIf *) intros cnd s1 s2 fas IH1 IH2 en en' tr R Hok.
+      pose proof Hok as [Hsi [Hnu [Hbi [Hcv Har]]]]. simpl.
+      rewrite (eval_cp en en' cnd R).
+      2:{ apply expr_ok_of. intros y Hy Hin. apply (Hnu y Hy). simpl. apply in_or_app. left. exact Hin. }
+      assert (Hfn : forall q, In q fas -> ~ In (q_name q) params).
+      { intros q Hq. apply Hbi. simpl. fold binders_l. apply in_or_app. left. apply in_or_app. right. apply in_or_app. right.
+        apply in_map. exact Hq. }
+      destruct (cond (eval w en cnd)) as [[|]|]; [| |reflexivity].
+      + specialize (IH1 en en' tr R (fun s' Hin => sub_ok (SIf cnd s1 s2 fas) s1 s' (or_introl eq_refl) Hin Hok)).
+        destruct (exec_list (exec w c lf) s1 en tr) as [en1 tr1|v en1 tr1|o];
+          destruct (exec_list (exec w c' lf) (map (cp_stmt gs lr) s1) en' tr) as [en1' tr1'|v' en1' tr1'|o']; simpl in IH1; try contradiction.
+        * destruct IH1 as [<- R1]. split; [reflexivity|]. unfold bind_e1.
+          rewrite (bind_qs_cp q_e1 q_e1) by (intro q; reflexivity).
+          apply rel_bind_qs; try assumption. intros q Hq. apply eval_cp; [exact R1|].
+          apply expr_ok_of. intros y Hy Hin. apply (Hnu y Hy). simpl. apply in_or_app. right. apply in_or_app. right.
+          apply in_or_app. right. apply in_flat_map. exists q. split; [exact Hq|]. unfold uses_quad. apply in_or_app. left. exact Hin.
+        * exact IH1.
+        * exact IH1.
+      + specialize (IH2 en en' tr R (fun s' Hin => sub_ok (SIf cnd s1 s2 fas) s2 s' (or_intror eq_refl) Hin Hok)).
+        destruct (exec_list (exec w c lf) s2 en tr) as [en1 tr1|v en1 tr1|o];
+          destruct (exec_list (exec w c' lf) (map (cp_stmt gs lr) s2) en' tr) as [en1' tr1'|v' en1' tr1'|o']; simpl in IH2; try contradiction.
+        * destruct IH2 as [<- R1]. split; [reflexivity|]. unfold bind_e2.
+          rewrite (bind_qs_cp q_e2 q_e2) by (intro q; reflexivity).
+          apply rel_bind_qs; try assumption. intros q Hq. apply eval_cp; [exact R1|].
+          apply expr_ok_of. intros y Hy Hin. apply (Hnu y Hy). simpl. apply in_or_app. right. apply in_or_app. right.
+          apply in_or_app. right. apply in_flat_map. exists q. split; [exact Hq|]. unfold uses_quad. apply in_or_app. right. exact Hin.
+        * exact IH2.
+        * exact IH2.
+    - (* SSIf *) intros cnd inv ss IH en en' tr R Hok.
+      pose proof Hok as [Hsi [Hnu [Hbi [Hcv Har]]]]. simpl.
+      rewrite (eval_cp en en' cnd R).
+      2:{ apply expr_ok_of. intros y Hy Hin. apply (Hnu y Hy). simpl. apply in_or_app. left. exact Hin. }
+      destruct (cond (eval w en cnd)) as [b|]; [|reflexivity].
+      destruct (xorb b inv); [|split; [reflexivity|exact R]].
+      apply IH; [exact R|]. intros s' Hin. exact (sub_ok (SSIf cnd inv ss) ss s' eq_refl Hin Hok).
+    - (* SBreak *) intros e en en' tr R [Hsi [Hnu [Hbi [Hcv Har]]]]. simpl.
+      rewrite (eval_cp en en' e R).
+      + split; [reflexivity|]. split; [reflexivity|exact R].
+      + apply expr_ok_of. intros y Hy Hin. apply (Hnu y Hy). exact Hin.
+    - (* SWhile *) intros lvs ss bc IH en en' tr R Hok.
+      pose proof Hok as [Hsi [Hnu [Hbi [Hcv Har]]]]. simpl.
+      assert (Hln : forall q, In q lvs -> ~ In (q_name q) params).
+      { intros q Hq. apply Hbi. simpl. fold binders_l. apply in_or_app. left. apply in_or_app. left. apply in_map. exact Hq. }
+      assert (R0 : rel (bind_e1 w lvs en) (bind_e1 w (map (cp_quad lr) lvs) en')).
+      { unfold bind_e1. rewrite (bind_qs_cp q_e1 q_e1) by (intro q; reflexivity).
+        apply rel_bind_qs; try assumption. intros q Hq. apply eval_cp; [exact R|].
+        apply expr_ok_of. intros y Hy Hin. apply (Hnu y Hy). simpl. apply in_or_app. left.
+        apply in_flat_map. exists q. split; [exact Hq|]. unfold uses_quad. apply in_or_app. left. exact Hin. }
+      pose proof (loop_rrel (exec_list (exec w c lf) ss) (exec_list (exec w c' lf) (map (cp_stmt gs lr) ss))
+                    (bind_e2 w lvs) (bind_e2 w (map (cp_quad lr) lvs)) lf) as HL.
+      assert (HLr : rrel (loop (exec_list (exec w c lf) ss) (bind_e2 w lvs) lf (bind_e1 w lvs en) tr)
+                         (loop (exec_list (exec w c' lf) (map (cp_stmt gs lr) ss)) (bind_e2 w (map (cp_quad lr) lvs)) lf
+                               (bind_e1 w (map (cp_quad lr) lvs) en') tr)).
+      { apply HL; [| |exact R0].
+        - intros en0 en0' tr0 R1. apply IH; [exact R1|]. intros s' Hin. exact (sub_ok (SWhile lvs ss bc) ss s' eq_refl Hin Hok).
+        - intros en0 en0' R1. unfold bind_e2. rewrite (bind_qs_cp q_e2 q_e2) by (intro q; reflexivity).
+          apply rel_bind_qs; try assumption. intros q Hq. apply eval_cp; [exact R1|].
+          apply expr_ok_of. intros y Hy Hin. apply (Hnu y Hy). simpl. apply in_or_app. left.
+          apply in_flat_map. exists q. split; [exact Hq|]. unfold uses_quad. apply in_or_app. right. exact Hin. }
+      destruct (loop (exec_list (exec w c lf) ss) (bind_e2 w lvs) lf (bind_e1 w lvs en) tr) as [en1 tr1|v en1 tr1|o];
+        destruct (loop (exec_list (exec w c' lf) (map (cp_stmt gs lr) ss)) (bind_e2 w (map (cp_quad lr) lvs)) lf
+                       (bind_e1 w (map (cp_quad lr) lvs) en') tr) as [en1' tr1'|v' en1' tr1'|o']; simpl in HLr; try contradiction; simpl.
+      + reflexivity.
+      + destruct HLr as [<- [<- R1]]. split; [reflexivity|]. destruct bc as [[b tb]|]; simpl; [|exact R1].
+        apply rel_bind; [exact R1|]. apply Hbi. simpl. fold binders_l. apply in_or_app. left. apply in_or_app. right.
+        apply in_or_app. right. left. reflexivity.
+      + exact HLr.
+    - (* SDecl *) intros x t en en' tr R [Hsi [Hnu [Hbi [Hcv Har]]]]. simpl.
+      split; [reflexivity|]. apply rel_bind; [exact R|]. apply Hbi. left. reflexivity.
+    - (* SAssign *) intros x e en en' tr R [Hsi [Hnu [Hbi [Hcv Har]]]]. simpl.
+      rewrite (eval_cp en en' e R).
+      + split; [reflexivity|]. apply rel_bind; [exact R|]. apply Hbi. simpl. left. reflexivity.
+      + apply expr_ok_of. intros y Hy Hin. apply (Hnu y Hy). exact Hin.
+    - (* SStruct *) intros x t es en en' tr R [Hsi [Hnu [Hbi [Hcv Har]]]]. simpl.
+      rewrite (map_eval_cp en en' es R).
+      + split; [reflexivity|]. apply rel_bind; [exact R|]. apply Hbi. left. reflexivity.
+      + intros y Hy Hin. apply (Hnu y Hy). exact Hin.
+    - (* SClosure *) intros x t f ft e en en' tr R [Hsi [Hnu [Hbi [Hcv Har]]]]. simpl.
+      rewrite (eval_cp en en' e R).
+      + split; [reflexivity|]. apply rel_bind; [exact R|]. apply Hbi. left. reflexivity.
+      + apply expr_ok_of. intros y Hy Hin. apply (Hnu y Hy). exact Hin.
+    - (* nil *) intros en en' tr R _. simpl. split; [reflexivity|exact R].
+    - (* cons *) intros s r IHs IHr en en' tr R Hok. simpl.
+      specialize (IHs en en' tr R (Hok s (or_introl eq_refl))).
+      destruct (exec w c lf s en tr) as [en1 tr1|v en1 tr1|o];
+        destruct (exec w c' lf (cp_stmt gs lr s) en' tr) as [en1' tr1'|v' en1' tr1'|o']; simpl in IHs; try contradiction.
+      + destruct IHs as [<- R1]. apply IHr; [exact R1|]. intros s' Hin. apply Hok. right. exact Hin.
+      + exact IHs.
+      + exact IHs.
+  Qed.
 End CpSim.
+
+(* ================================================================================================
+   Part 3: whole programs
+   ================================================================================================ *)
+
+(* parameters dropped without a constant to replace them *)
+Fixpoint xdrop (ps : list name) (ss : list pstate) : list name :=
+  match ps, ss with
+  | p :: pr, s :: sr =>
+      if is_unopt s then xdrop pr sr
+      else match const_of s with Some _ => xdrop pr sr | None => p :: xdrop pr sr end
+  | _, _ => []
+  end.
+
+Definition x_of (gs : gstate) (f : func) : list name :=
+  match gget gs (f_name f) with Some (Some ps) => xdrop (f_params f) ps | _ => [] end.
+
+Lemma xdrop_in ps ss x : In x (xdrop ps ss) ->
+  exists i s, nth_error ps i = Some x /\ nth_error ss i = Some s /\ is_unopt s = false /\ const_of s = None.
+Proof.
+  revert ss. induction ps as [|p ps IH]; intros [|s ss] H; simpl in H; try contradiction.
+  destruct (is_unopt s) eqn:Eu.
+  - destruct (IH ss H) as [i [s0 Hi]]. exists (S i), s0. exact Hi.
+  - destruct (const_of s) eqn:Ec.
+    + destruct (IH ss H) as [i [s0 Hi]]. exists (S i), s0. exact Hi.
+    + destruct H as [<-|H].
+      * exists 0%nat, s. repeat split; assumption.
+      * destruct (IH ss H) as [i [s0 Hi]]. exists (S i), s0. exact Hi.
+Qed.
+
+Lemma mk_lrw_in ps ss x cst : alookup x (mk_lrw ps ss) = Some cst ->
+  exists i s, nth_error ps i = Some x /\ nth_error ss i = Some s /\ const_of s = Some cst.
+Proof.
+  revert ss. induction ps as [|p ps IH]; intros [|s ss] H; simpl in H; try discriminate.
+  destruct (const_of s) as [c0|] eqn:Ec.
+  - simpl in H. destruct (N.eqb x p) eqn:E.
+    + apply N.eqb_eq in E. subst. inversion H; subst. exists 0%nat, s. repeat split; assumption.
+    + destruct (IH ss H) as [i [s0 Hi]]. exists (S i), s0. exact Hi.
+  - destruct (IH ss H) as [i [s0 Hi]]. exists (S i), s0. exact Hi.
+Qed.
+
+Lemma nodup_nth_eq (l : list name) i j x :
+  nodupb l = true -> nth_error l i = Some x -> nth_error l j = Some x -> i = j.
+Proof.
+  revert i j. induction l as [|y l IH]; intros i j Hn Hi Hj; [destruct i; discriminate|].
+  simpl in Hn. apply andb_true_iff in Hn. destruct Hn as [Hy Hn]. apply negb_true_iff in Hy. apply memb_false_In in Hy.
+  destruct i as [|i], j as [|j]; simpl in *; try reflexivity.
+  - inversion Hi; subst. exfalso. apply Hy. eapply nth_error_In; eauto.
+  - inversion Hj; subst. exfalso. apply Hy. eapply nth_error_In; eauto.
+  - f_equal. eapply IH; eauto.
+Qed.
+
+Section InitRel.
+  Variable w : world.
+
+  Lemma init_rel params ps vs :
+    nodupb params = true -> length ps = length params -> good w ps vs ->
+    rel w (mk_lrw params ps) (xdrop params ps)
+        (combine params vs) (combine (filter_keep (map is_unopt ps) params) (filter_keep (map is_unopt ps) vs)).
+  Proof.
+    revert ps vs. induction params as [|p params IH]; intros ps vs Hn Hl Hg.
+    - destruct ps; [|discriminate]. intros x. split; [reflexivity|]. simpl. discriminate.
+    - destruct ps as [|s ps]; [discriminate|]. inversion Hg as [|s0 v ps0 vs0 [Hs Hc] Hg']; subst.
+      simpl in Hn. apply andb_true_iff in Hn. destruct Hn as [Hp Hn]. apply negb_true_iff in Hp. apply memb_false_In in Hp.
+      assert (Hl' : length ps = length params) by (simpl in Hl; lia).
+      pose proof (IH ps vs0 Hn Hl' Hg') as R. intros x. specialize (R x). destruct R as [R1 R2].
+      assert (Hnotp : forall cst, alookup x (mk_lrw params ps) = Some cst -> N.eqb x p = false).
+      { intros cst Hc0. destruct (mk_lrw_in _ _ _ _ Hc0) as [i [s1 [Hi _]]]. apply N.eqb_neq. intro. subst.
+        apply Hp. eapply nth_error_In; eauto. }
+      simpl. destruct (is_unopt s) eqn:Eu.
+      + (* kept *)
+        destruct s; try discriminate. simpl. split.
+        * intros Hx Hlk. destruct (N.eqb x p); [reflexivity|]. apply R1; assumption.
+        * intros cst Hc0. rewrite (Hnotp _ Hc0). apply R2. exact Hc0.
+      + destruct (const_of s) as [c0|] eqn:Ec; simpl.
+        * split.
+          -- intros Hx Hlk. destruct (N.eqb x p) eqn:E; [discriminate|]. apply R1; assumption.
+          -- intros cst Hc0. destruct (N.eqb x p) eqn:E.
+             ++ inversion Hc0; subst. rewrite (Hc cst eq_refl). apply eval_wrapped.
+             ++ apply R2. exact Hc0.
+        * split.
+          -- intros Hx Hlk. destruct (N.eqb x p) eqn:E.
+             ++ apply N.eqb_eq in E. subst. exfalso. apply Hx. left. reflexivity.
+             ++ apply R1; [|exact Hlk]. intro Hin. apply Hx. right. exact Hin.
+          -- intros cst Hc0. rewrite (Hnotp _ Hc0). apply R2. exact Hc0.
+  Qed.
+End InitRel.
+
+(* closures of the world denote functions that a ClosureInit of the program names, or external functions *)
+Definition closures_ok (w : world) (P : program) : Prop :=
+  forall tr v h cx, w_clo w tr v = Some (h, cx) -> In h (program_closure_fns P) \/ find_func P h = None.
+
+Lemma closure_fns_gev s h : In h (closure_fns s) -> In (GClo h) (gev_stmt s).
+Proof.
+  revert s. apply (stmt_ind2 (fun s => In h (closure_fns s) -> In (GClo h) (gev_stmt s))
+                             (fun ss => In h (flat_map closure_fns ss) -> In (GClo h) (flat_map gev_stmt ss)));
+    simpl; try tauto.
+  - intros c s1 s2 fas H1 H2 H. apply in_app_or in H. apply in_or_app. tauto.
+  - intros x t f ft e [Hf|[]]. subst. left. reflexivity.
+  - intros s r Hs Hr H. apply in_app_or in H. apply in_or_app. tauto.
+Qed.
+
+Lemma find_func_name P g fn : find_func P g = Some fn -> f_name fn = g /\ In fn P.
+Proof.
+  induction P as [|f P IH]; simpl; [discriminate|]. destruct (N.eqb (f_name f) g) eqn:E.
+  - intro H. inversion H; subst. split; [apply N.eqb_eq; exact E|left; reflexivity].
+  - intro H. destruct (IH H). split; [assumption|right; assumption].
+Qed.
+
+Lemma find_func_map (h : func -> func) P g :
+  (forall f, f_name (h f) = f_name f) -> find_func (map h P) g = option_map h (find_func P g).
+Proof.
+  intro Hn. induction P as [|f P IH]; simpl; [reflexivity|]. rewrite Hn. destruct (N.eqb (f_name f) g); [reflexivity|exact IH].
+Qed.
+
+Lemma cp_func_name gs f : f_name (cp_func gs f) = f_name f.
+Proof. unfold cp_func. destruct (gget gs (f_name f)) as [[ps|]|]; reflexivity. Qed.
+
+Lemma filter_keep_all {A} (ks : list bool) (l : list A) :
+  forallb (fun b => b) ks = true -> length ks = length l -> filter_keep ks l = l.
+Proof.
+  revert l. induction ks as [|k ks IH]; intros [|x l] H L; simpl in *; try reflexivity; try discriminate.
+  apply andb_true_iff in H. destruct H as [-> H]. f_equal. apply IH; [exact H|lia].
+Qed.
+
+Section Program.
+  Variable w : world.
+  Variable P : program.
+  Hypothesis Hwf : wf_prog P = true.
+  Hypothesis Hw : closures_ok w P.
+
+  Let gs := collect_all false P.
+
+  Lemma names_nodup : nodupb (map f_name P) = true.
+  Proof. unfold wf_prog in Hwf. apply andb_true_iff in Hwf. apply Hwf. Qed.
+
+  Lemma wf_of fn : In fn P -> wf_cpe_func P gs fn = true.
+  Proof.
+    intro Hin. unfold wf_prog in Hwf. apply andb_true_iff in Hwf. destruct Hwf as [_ H].
+    rewrite forallb_forall in H. apply H. exact Hin.
+  Qed.
+
+  Lemma gs_fold g :
+    gget gs g = fold_left (step_g g) (all_events P) (option_map (fun f => Some (local_states false f)) (find_func P g)).
+  Proof. unfold gs. rewrite collect_all_events, gget_fold, (init_gstate_find P g names_nodup). reflexivity. Qed.
+
+  Lemma G5 g ps : gget gs g = Some (Some ps) -> exists fn, find_func P g = Some fn.
+  Proof.
+    rewrite gs_fold. destruct (find_func P g) as [fn|]; [intros _; exists fn; reflexivity|]. simpl.
+    intro H. exfalso.
+    assert (I : fold_left (step_g g) (all_events P) None = None \/ fold_left (step_g g) (all_events P) None = Some None).
+    { apply (fold_step_inv g (fun v => v = None \/ v = Some None)); [|left; reflexivity].
+      intros v ev [->| ->]; destruct ev as [h a|h]; simpl; destruct (N.eqb h g); auto. }
+    rewrite H in I. destruct I; discriminate.
+  Qed.
+
+  Lemma G1 g fn ps : find_func P g = Some fn -> gget gs g = Some (Some ps) -> length ps = length (f_params fn).
+  Proof.
+    intros Hf Hg. rewrite gs_fold, Hf in Hg. simpl in Hg.
+    destruct (from_init_fold g (local_states false fn) (all_events P) ps Hg) as [L _].
+    rewrite L. apply local_states_length.
+  Qed.
+
+  Lemma G3 g fn ps i p :
+    find_func P g = Some fn -> gget gs g = Some (Some ps) ->
+    nth_error ps i = Some Unused -> nth_error (f_params fn) i = Some p ->
+    ~ In p (flat_map (uses (f_name fn) (f_params fn)) (f_body fn) ++ uses_expr (f_ret fn)).
+  Proof.
+    intros Hf Hg Hs Hp. rewrite gs_fold, Hf in Hg. simpl in Hg.
+    destruct (from_init_fold g (local_states false fn) (all_events P) ps Hg) as [_ U].
+    apply (local_unused fn i p Hp). eapply U; eauto.
+  Qed.
+
+  Lemma G2 fn g args ps :
+    In fn P -> In (GCall g args) (flat_map gev_stmt (f_body fn)) -> gget gs g = Some (Some ps) -> metv args ps.
+  Proof.
+    intros Hin Hev Hg.
+    assert (Hall : In (GCall g args) (all_events P)).
+    { unfold all_events. apply in_flat_map. exists fn. split; assumption. }
+    apply in_split in Hall. destruct Hall as [e1 [e2 He]]. rewrite gs_fold, He in Hg.
+    eapply call_site_met; eauto.
+  Qed.
+
+  Lemma G4 h : In h (program_closure_fns P) -> gget gs h = Some None.
+  Proof.
+    intro Hin. unfold program_closure_fns in Hin. apply in_flat_map in Hin. destruct Hin as [fn [Hfn Hh]].
+    assert (Hall : In (GClo h) (all_events P)).
+    { unfold all_events. apply in_flat_map. exists fn. split; [exact Hfn|].
+      apply in_flat_map in Hh. destruct Hh as [s [Hs Hh]]. apply in_flat_map. exists s. split; [exact Hs|].
+      apply closure_fns_gev. exact Hh. }
+    apply in_split in Hall. destruct Hall as [e1 [e2 He]]. rewrite gs_fold, He. apply closure_site_none.
+  Qed.
+
+  Lemma clo_keep tr v h cx : w_clo w tr v = Some (h, cx) -> keep_of gs h = None.
+  Proof.
+    intro H. unfold keep_of. destruct (Hw _ _ _ _ H) as [Hin|Hnone].
+    - rewrite (G4 h Hin). reflexivity.
+    - destruct (gget gs h) as [[ps|]|] eqn:E; try reflexivity.
+      destruct (G5 h ps E) as [fn Hfn]. rewrite Hfn in Hnone. discriminate.
+  Qed.
+
+  Let P' := const_param_elim false P.
+
+  Lemma find_P' g : find_func P' g = option_map (cp_func gs) (find_func P g).
+  Proof. unfold P', const_param_elim. apply find_func_map. apply cp_func_name. Qed.
+
+  Lemma lrw_of_lit fn x cst : alookup x (lrw_of gs fn) = Some cst -> In x (f_params fn) /\ is_lit cst.
+  Proof.
+    unfold lrw_of. destruct (gget gs (f_name fn)) as [[ps|]|]; simpl; try discriminate.
+    intro H. destruct (mk_lrw_in _ _ _ _ H) as [i [s [Hi [_ Hc]]]]. split; [eapply nth_error_In; eauto|eapply const_of_lit; eauto].
+  Qed.
+
+  Lemma memb_disjoint a b x : disjointb a b = true -> In x a -> ~ In x b.
+  Proof.
+    unfold disjointb. intros H Hx. rewrite forallb_forall in H. specialize (H x Hx).
+    apply negb_true_iff in H. apply memb_false_In. exact H.
+  Qed.
+
+  (* every statement of the body of a function of P satisfies what the simulation asks, provided no parameter state is
+     Referenced (a state a function that is called somewhere never keeps) *)
+  Lemma body_ok fn :
+    find_func P (f_name fn) = Some fn ->
+    (forall ps, gget gs (f_name fn) = Some (Some ps) -> forall s, In s ps -> s <> Referenced) ->
+    (forall s, In s (f_body fn) -> stmt_ok P gs (f_name fn) (f_params fn) (lrw_of gs fn) (x_of gs fn) s) /\
+    expr_ok (x_of gs fn) (f_ret fn).
+  Proof.
+    intros Hf Hnoref. destruct (find_func_name _ _ _ Hf) as [_ Hin]. pose proof (wf_of fn Hin) as Hwfn.
+    unfold wf_cpe_func in Hwfn.
+    apply andb_true_iff in Hwfn. destruct Hwfn as [Hwfn Hcv].
+    apply andb_true_iff in Hwfn. destruct Hwfn as [Hwfn Har].
+    apply andb_true_iff in Hwfn. destruct Hwfn as [Hnd Hdis].
+    assert (HXuse : forall x, In x (x_of gs fn) ->
+              ~ In x (flat_map (uses (f_name fn) (f_params fn)) (f_body fn) ++ uses_expr (f_ret fn))).
+    { intros x Hx. unfold x_of in Hx. destruct (gget gs (f_name fn)) as [[ps|]|] eqn:Hg; try contradiction.
+      destruct (xdrop_in _ _ _ Hx) as [i [s [Hi [Hs [Hu Hc]]]]].
+      assert (s = Unused).
+      { pose proof (Hnoref ps eq_refl s (nth_error_In _ _ Hs)) as Hr. destruct s; try discriminate; try reflexivity. contradiction. }
+      subst s. eapply G3; eauto. }
+    split.
+    - intros s Hs. repeat split.
+      + intros g args ps Hev Hg. eapply (G2 fn); eauto. apply in_flat_map. exists s. split; assumption.
+      + intros x Hx Hu. apply (HXuse x Hx). apply in_or_app. left. apply in_flat_map. exists s. split; assumption.
+      + intros x Hx. apply (memb_disjoint _ _ x Hdis). apply in_app_or in Hx. apply in_or_app.
+        destruct Hx as [Hx|Hx]; [left; eapply binders_l_in; eauto | right; eapply assigned_l_in; eauto].
+      + intros x Hx. rewrite forallb_forall in Hcv.
+        specialize (Hcv x ltac:(apply in_flat_map; exists s; split; assumption)).
+        destruct (alookup x (lrw_of gs fn)); [discriminate|reflexivity].
+      + rewrite forallb_forall in Har. apply Har. exact Hs.
+    - apply expr_ok_of. intros x Hx Hu. apply (HXuse x Hx). apply in_or_app. right. exact Hu.
+  Qed.
+
+  Lemma self_kept fn ps i p :
+    find_func P (f_name fn) = Some fn -> gget gs (f_name fn) = Some (Some ps) ->
+    nth_error (f_params fn) i = Some p -> nth_error ps i = Some Unopt -> ~ In p (x_of gs fn).
+  Proof.
+    intros Hf Hg Hp Hs Hx. unfold x_of in Hx. rewrite Hg in Hx.
+    destruct (xdrop_in _ _ _ Hx) as [j [s [Hj [Hsj [Hu _]]]]].
+    destruct (find_func_name _ _ _ Hf) as [_ Hin]. pose proof (wf_of fn Hin) as Hwfn. unfold wf_cpe_func in Hwfn.
+    apply andb_true_iff in Hwfn. destruct Hwfn as [Hwfn _]. apply andb_true_iff in Hwfn. destruct Hwfn as [Hwfn _].
+    apply andb_true_iff in Hwfn. destruct Hwfn as [Hnd _].
+    pose proof (nodup_nth_eq _ _ _ _ Hnd Hp Hj). subst j. rewrite Hs in Hsj. inversion Hsj; subst. discriminate.
+  Qed.
+
+  Lemma good_length ps vs : good w ps vs -> length ps = length vs.
+  Proof. intro H. induction H; simpl; [reflexivity|f_equal; assumption]. Qed.
+
+  Lemma good_noref ps vs s : good w ps vs -> In s ps -> s <> Referenced.
+  Proof.
+    intros Hg Hin. induction Hg as [|s0 v ps0 vs0 [H0 _] _ IH]; [destruct Hin|].
+    destruct Hin as [<-|Hin]; [exact H0|apply IH; exact Hin].
+  Qed.
+
+  Lemma crel_step n :
+    Crel w gs (call w P n) (call w P' n) -> Crel w gs (call w P (S n)) (call w P' (S n)).
+  Proof.
+    intros IH g vs tr Hok.
+    change (call w P' (S n) g (fk gs g vs) tr) with
+      (match find_func P' g with None => call_ext w g (fk gs g vs) tr
+                               | Some fn => run_body w (call w P' n) (S n) fn (fk gs g vs) tr end).
+    change (call w P (S n) g vs tr) with
+      (match find_func P g with None => call_ext w g vs tr | Some fn => run_body w (call w P n) (S n) fn vs tr end).
+    rewrite find_P'. destruct (find_func P g) as [fn|] eqn:Hf; simpl option_map.
+    2:{ unfold fk, keep_of. destruct (gget gs g) as [[ps|]|] eqn:Hg; try reflexivity.
+        destruct (G5 g ps Hg) as [fn Hfn]. rewrite Hfn in Hf. discriminate. }
+    destruct (find_func_name _ _ _ Hf) as [Hname Hin]. subst g.
+    pose proof (wf_of fn Hin) as Hwfn. unfold wf_cpe_func in Hwfn.
+    apply andb_true_iff in Hwfn. destruct Hwfn as [Hwfn _]. apply andb_true_iff in Hwfn. destruct Hwfn as [Hwfn _].
+    apply andb_true_iff in Hwfn. destruct Hwfn as [Hnd _].
+    (* the simulation of the body, for the lr / X of this function *)
+    assert (Hsim : (forall ps, gget gs (f_name fn) = Some (Some ps) -> forall s, In s ps -> s <> Referenced) ->
+              forall en en', rel w (lrw_of gs fn) (x_of gs fn) en en' ->
+              rrel w (lrw_of gs fn) (x_of gs fn)
+                   (exec_list (exec w (call w P n) (S n)) (f_body fn) en tr)
+                   (exec_list (exec w (call w P' n) (S n)) (map (cp_stmt gs (lrw_of gs fn)) (f_body fn)) en' tr) /\
+              expr_ok (x_of gs fn) (f_ret fn)).
+    { intros Hnoref en en' R. destruct (body_ok fn Hf Hnoref) as [Hbody Hret]. split; [|exact Hret].
+      apply (proj2 (cp_sim_both w P gs (call w P n) (call w P' n) (S n) (f_name fn) (f_params fn) (lrw_of gs fn) (x_of gs fn)
+                      (lrw_of_lit fn) IH G1 G5
+                      (fun ps Hg i p Hp Hs => self_kept fn ps i p Hf Hg Hp Hs)
+                      (fun fn0 Hf0 => ltac:(rewrite Hf in Hf0; inversion Hf0; reflexivity))
+                      clo_keep
+                      (fun Hk x Hx => ltac:(unfold x_of, keep_of in *; destruct (gget gs (f_name fn)) as [[ps0|]|]; [discriminate|exact Hx|exact Hx])))
+                   (f_body fn) en en' tr R Hbody). }
+    unfold fk, keep_of, cp_func, run_body. destruct (gget gs (f_name fn)) as [[ps|]|] eqn:Hg.
+    - (* parameters are dropped *)
+      pose proof (Hok ps Hg) as Hgood. pose proof (G1 _ _ _ Hf Hg) as Hlen.
+      assert (Hlv : length ps = length vs) by (apply good_length; exact Hgood).
+      simpl f_params. simpl f_body. simpl f_ret.
+      assert (Hl1 : (length vs =? length (f_params fn))%nat = true) by (apply Nat.eqb_eq; lia).
+      assert (Hl2 : (length (filter_keep (map is_unopt ps) vs) =? length (filter_keep (map is_unopt ps) (f_params fn)))%nat = true).
+      { apply Nat.eqb_eq. apply filter_keep_length. lia. }
+      rewrite Hl1, Hl2. simpl negb. cbv iota.
+      unfold exec_block, init_env. simpl f_params. simpl f_body.
+      assert (Hlr : lrw_of gs fn = mk_lrw (f_params fn) ps) by (unfold lrw_of; rewrite Hg; reflexivity).
+      assert (HXe : x_of gs fn = xdrop (f_params fn) ps) by (unfold x_of; rewrite Hg; reflexivity).
+      pose proof (init_rel w (f_params fn) ps vs Hnd Hlen Hgood) as R0. rewrite <- Hlr, <- HXe in R0.
+      destruct (Hsim (fun ps0 Hg0 s Hs => ltac:(inversion Hg0; subst; eapply good_noref; eauto)) _ _ R0) as [Hrr Hret].
+      rewrite <- Hlr. unfold cp_stmts.
+      destruct (exec_list (exec w (call w P n) (S n)) (f_body fn) (combine (f_params fn) vs) tr) as [en1 tr1|v en1 tr1|o];
+        destruct (exec_list (exec w (call w P' n) (S n)) (map (cp_stmt gs (lrw_of gs fn)) (f_body fn))
+                            (combine (filter_keep (map is_unopt ps) (f_params fn)) (filter_keep (map is_unopt ps) vs)) tr)
+          as [en1' tr1'|v' en1' tr1'|o']; simpl in Hrr; try contradiction.
+      + destruct Hrr as [<- R1]. f_equal. apply (eval_cp w (f_params fn) (lrw_of gs fn) (x_of gs fn) (lrw_of_lit fn) en1 en1' _ R1 Hret).
+      + reflexivity.
+      + subst. reflexivity.
+    - (* Unoptimizable as a whole *)
+      simpl f_params. simpl f_body. simpl f_ret.
+      destruct (negb (length vs =? length (f_params fn))%nat); [reflexivity|].
+      unfold exec_block, init_env. simpl f_params. simpl f_body.
+      assert (Hlr : lrw_of gs fn = []) by (unfold lrw_of; rewrite Hg; reflexivity).
+      assert (HXe : x_of gs fn = []) by (unfold x_of; rewrite Hg; reflexivity).
+      assert (R0 : rel w (lrw_of gs fn) (x_of gs fn) (combine (f_params fn) vs) (combine (f_params fn) vs)).
+      { intro x. split; [reflexivity|]. rewrite Hlr. simpl. discriminate. }
+      destruct (Hsim (fun ps0 Hg0 => ltac:(discriminate)) _ _ R0) as [Hrr Hret].
+      rewrite Hlr in Hrr. unfold cp_stmts.
+      destruct (exec_list (exec w (call w P n) (S n)) (f_body fn) (combine (f_params fn) vs) tr) as [en1 tr1|v en1 tr1|o];
+        destruct (exec_list (exec w (call w P' n) (S n)) (map (cp_stmt gs []) (f_body fn)) (combine (f_params fn) vs) tr)
+          as [en1' tr1'|v' en1' tr1'|o']; simpl in Hrr; try contradiction.
+      + destruct Hrr as [<- R1]. f_equal. rewrite <- Hlr.
+        apply (eval_cp w (f_params fn) (lrw_of gs fn) (x_of gs fn) (lrw_of_lit fn) en1 en1' _ ltac:(rewrite Hlr; exact R1) Hret).
+      + reflexivity.
+      + subst. reflexivity.
+    - (* no entry: cannot happen for a function of the program, but the rewrite is the same as above *)
+      simpl f_params. simpl f_body. simpl f_ret.
+      destruct (negb (length vs =? length (f_params fn))%nat); [reflexivity|].
+      unfold exec_block, init_env. simpl f_params. simpl f_body.
+      assert (Hlr : lrw_of gs fn = []) by (unfold lrw_of; rewrite Hg; reflexivity).
+      assert (HXe : x_of gs fn = []) by (unfold x_of; rewrite Hg; reflexivity).
+      assert (R0 : rel w (lrw_of gs fn) (x_of gs fn) (combine (f_params fn) vs) (combine (f_params fn) vs)).
+      { intro x. split; [reflexivity|]. rewrite Hlr. simpl. discriminate. }
+      destruct (Hsim (fun ps0 Hg0 => ltac:(discriminate)) _ _ R0) as [Hrr Hret].
+      rewrite Hlr in Hrr. unfold cp_stmts.
+      destruct (exec_list (exec w (call w P n) (S n)) (f_body fn) (combine (f_params fn) vs) tr) as [en1 tr1|v en1 tr1|o];
+        destruct (exec_list (exec w (call w P' n) (S n)) (map (cp_stmt gs []) (f_body fn)) (combine (f_params fn) vs) tr)
+          as [en1' tr1'|v' en1' tr1'|o']; simpl in Hrr; try contradiction.
+      + destruct Hrr as [<- R1]. f_equal. rewrite <- Hlr.
+        apply (eval_cp w (f_params fn) (lrw_of gs fn) (x_of gs fn) (lrw_of_lit fn) en1 en1' _ ltac:(rewrite Hlr; exact R1) Hret).
+      + reflexivity.
+      + subst. reflexivity.
+  Qed.
+
+  Theorem cp_crel n : Crel w gs (call w P n) (call w P' n).
+  Proof.
+    induction n as [|n IH].
+    - intros g vs tr _. reflexivity.
+    - apply crel_step. exact IH.
+  Qed.
+
+  (* entry functions: all parameters survive *)
+  Theorem constparam_call entry args n tr :
+    params_kept gs entry = true -> call w P' n entry args tr = call w P n entry args tr.
+  Proof.
+    intro Hk. destruct n as [|n]; [reflexivity|].
+    destruct (gget gs entry) as [[ps|]|] eqn:Hg.
+    - unfold params_kept in Hk. rewrite Hg in Hk.
+      destruct (G5 entry ps Hg) as [fn Hf]. pose proof (G1 _ _ _ Hf Hg) as Hlen.
+      destruct (Nat.eq_dec (length args) (length (f_params fn))) as [Hla|Hla].
+      + pose proof (cp_crel (S n) entry args tr) as H. unfold fk, keep_of in H. rewrite Hg in H.
+        rewrite filter_keep_all in H.
+        * apply H. intros ps0 Hg0. rewrite Hg in Hg0. inversion Hg0; subst ps0. clear - Hk Hla Hlen.
+          revert args Hla Hlen. generalize (f_params fn). induction ps as [|s ps IH]; intros l [|a args] Hla Hlen; simpl in *;
+            try (destruct l; discriminate); try constructor.
+          -- apply andb_true_iff in Hk. destruct Hk as [Hs _]. destruct s; try discriminate. split; [discriminate|]. simpl. discriminate.
+          -- apply andb_true_iff in Hk. destruct Hk as [_ Hk]. destruct l as [|x l]; [discriminate|]. apply (IH Hk l); simpl in *; lia.
+        * rewrite forallb_forall. intros b Hb. apply in_map_iff in Hb. destruct Hb as [s [<- Hs]].
+          rewrite forallb_forall in Hk. apply Hk. exact Hs.
+        * rewrite map_length. lia.
+      + (* wrong number of arguments: Stuck on both sides *)
+        simpl. rewrite find_P', Hf. simpl. unfold run_body, cp_func. rewrite (proj1 (find_func_name _ _ _ Hf)), Hg. simpl f_params.
+        rewrite filter_keep_all.
+        * destruct (length args =? length (f_params fn))%nat eqn:E; [apply Nat.eqb_eq in E; contradiction|reflexivity].
+        * rewrite forallb_forall. intros b Hb. apply in_map_iff in Hb. destruct Hb as [s [<- Hs]].
+          rewrite forallb_forall in Hk. apply Hk. exact Hs.
+        * rewrite map_length. exact Hlen.
+    - pose proof (cp_crel (S n) entry args tr) as H. unfold fk, keep_of in H. rewrite Hg in H. apply H.
+      intros ps Hg0. rewrite Hg in Hg0. discriminate.
+    - pose proof (cp_crel (S n) entry args tr) as H. unfold fk, keep_of in H. rewrite Hg in H. apply H.
+      intros ps Hg0. rewrite Hg in Hg0. discriminate.
+  Qed.
+End Program.
+
+Theorem constparam_preserves w P entry args fuel :
+  wf_prog P = true -> closures_ok w P ->
+  params_kept (collect_all false P) entry = true ->
+  sem w (const_param_elim false P) entry args fuel = sem w P entry args fuel.
+Proof.
+  intros Hwf Hw Hk. unfold sem. rewrite (constparam_call w P Hwf Hw entry args fuel [] Hk). reflexivity.
+Qed.
+
+(* the general statement: any function, called with arguments that carry the constants the analysis found (and none of
+   whose parameter states is Referenced - the state of a used parameter of a function without call sites) *)
+Theorem constparam_preserves_general w P g vs fuel :
+  wf_prog P = true -> closures_ok w P ->
+  args_ok w (collect_all false P) g vs ->
+  sem w (const_param_elim false P) g (fk (collect_all false P) g vs) fuel = sem w P g vs fuel.
+Proof.
+  intros Hwf Hw Hok. unfold sem. rewrite (cp_crel w P Hwf Hw fuel g vs [] Hok). reflexivity.
+Qed.
+
+(* an entry point whose parameters are all unused (the `_this` of a static main): any argument values will do *)
+Lemma args_ok_unused w gs g vs :
+  (forall ps, gget gs g = Some (Some ps) -> length ps = length vs /\ forallb (fun s => match s with Unused | Unopt => true | _ => false end) ps = true) ->
+  args_ok w gs g vs.
+Proof.
+  intros H ps Hg. destruct (H ps Hg) as [L Hu]. clear H Hg. revert vs L.
+  induction ps as [|s ps IH]; intros [|v vs] L; simpl in *; try discriminate; constructor.
+  - apply andb_true_iff in Hu. destruct Hu as [Hs _]. destruct s; try discriminate; split; try discriminate; simpl; discriminate.
+  - apply andb_true_iff in Hu. destruct Hu as [_ Hu]. apply IH; [exact Hu|lia].
+Qed.
